@@ -61,7 +61,7 @@ type Scenario struct {
 	StateOracle func(ctx context.Context, c Crash) []string
 	// EndOracle evaluates the finished execution (outside the bubble); it returns problems.
 	EndOracle func(ctx context.Context, run *Run) []string
-	// Faults: answers offered for every gated operation (default {"ok","err"}).
+	// Faults: answers offered for every gated operation (default {"ok","err"}, for Save and Remove also "err-after").
 	Faults []string
 	// MaxInflightSubset bounds the in-flight closure (default 6 → at most 64 subsets per step).
 	MaxInflightSubset int
@@ -145,7 +145,13 @@ func Explore(r *vh.Run, t *testing.T, sc Scenario, bound int, seen map[string]bo
 					}
 					return nil
 				},
-				Alts: func(op *gatebe.Op) []string { return faults },
+				Alts: func(op *gatebe.Op) []string {
+					if sc.Faults == nil && (op.Kind == "Save" || op.Kind == "Remove") {
+						// default for mutations: also "took effect, but the caller got an error" (a lost reply)
+						return []string{"ok", "err", "err-after"}
+					}
+					return faults
+				},
 			}
 			be.Observe = func(op *gatebe.Op, ans string, err error) {
 				if ans != "ok" && ans != "abort" && ans != "severed" {
